@@ -78,7 +78,8 @@ fn vec_znx_normalize_inter_base2k<R, A, ZNXARI>(
     let res_size: usize = res.size();
     let a_size: usize = a.size();
 
-    let (carry, _) = carry.split_at_mut(n);
+    let (carry, rest) = carry.split_at_mut(n);
+    let zero: &mut [i64] = &mut rest[..n];
 
     let mut lsh: i64 = res_offset % base2k as i64;
     let mut limbs_offset: i64 = res_offset / base2k as i64;
@@ -112,6 +113,12 @@ fn vec_znx_normalize_inter_base2k<R, A, ZNXARI>(
     // If no limbs were discarded, initialize carry to zero
     if a_out_range == 0 {
         ZNXARI::znx_zero(carry);
+    }
+
+    // A negative offset beyond the precision of res: the carry passes through the vacated positions below res.
+    for _ in res_size as i64..-limbs_offset {
+        ZNXARI::znx_zero(zero);
+        ZNXARI::znx_normalize_middle_step_carry_only(base2k, lsh_pos, zero, carry);
     }
 
     // Zeroes bottom limbs that will not be interacted with
@@ -368,6 +375,18 @@ fn vec_znx_normalize_cross_base2k<R, A, ZNXARI>(
                 ZNXARI::znx_add_assign(a_carry, a_norm);
                 break 'inner;
             }
+        }
+    }
+
+    // A negative offset beyond the precision of res: `a` lies entirely below res and its carry
+    // sits (-limbs_offset * a_base2k - res_tot_bits) bits below the last limb of res.
+    if a_start == a_end && limbs_offset < 0 {
+        let mut gap: usize = ((-limbs_offset) as usize * a_base2k).saturating_sub(res_tot_bits);
+        ZNXARI::znx_zero(a_norm);
+        while gap != 0 {
+            let take: usize = gap.min(a_base2k);
+            ZNXARI::znx_normalize_middle_step_carry_only(take, 0, a_norm, a_carry);
+            gap -= take;
         }
     }
 
